@@ -16,9 +16,9 @@ import (
 type c17Stale struct {
 	N           *ssa.Call
 	Og, Ok, Err ssa.Value
-	Site        *ssa.Call  // the instruction of the analysed function at which the test runs
-	Map         ssa.Value  // the inspected map, as a value of the analysed function
-	Path        []string   // the constant field path, as seen from the analysed function
+	Site        *ssa.Call // the instruction of the analysed function at which the test runs
+	Map         ssa.Value // the inspected map, as a value of the analysed function
+	Path        []string  // the constant field path, as seen from the analysed function
 	Helper      *ssa.Function
 	HelperObj   int    // index (in Helper.Params / Site args) of the object whose generation is compared
 	HelperWhy   string // non-empty: the helper's result is not exactly the stale verdict
